@@ -192,8 +192,12 @@ def stmt(s):
         if s.handlers:
             hs = None
             for h in reversed(s.handlers):
-                one = seq(act("except:" + (ast.unparse(h.type) if h.type is not None else "")), block(h.body))
-                hs = one if hs is None else ("alt", one, hs)
+                # a handler for a tuple of types is one handler per type (same body): which handler gets an exception is then
+                # decided by one type name each, in source order (Model/Cancel.lean `handlers`)
+                types = [ast.unparse(e) for e in h.type.elts] if isinstance(h.type, ast.Tuple) else [ast.unparse(h.type) if h.type is not None else ""]
+                for ty in reversed(types):
+                    one = seq(act("except:" + ty), block(h.body))
+                    hs = one if hs is None else ("alt", one, hs)
             body = ("try", body, hs)
         if s.finalbody:
             # the clean-up block is bracketed by marker actions, so that "what happens inside a finally" can be asked
@@ -293,6 +297,15 @@ STATE_FUNCTIONS = [
     ("spa.py", "GeckoSpa._on_partial_status_update"),
     ("locator.py", "GeckoLocator._on_discovered"),
     ("automation/async_facade.py", "GeckoAsyncFacade._on_config_device_change"),
+    # the two write paths of an item (blocking / awaitable) and the structures' hand-offs
+    ("driver/accessor.py", "GeckoStructAccessor._set_value"),
+    ("driver/accessor.py", "GeckoTempStructAccessor._set_value"),
+    ("driver/spastruct.py", "GeckoStructure.set_value"),
+    ("driver/async_spastruct.py", "GeckoAsyncStructure.set_value"),
+    # the notification walk every item, sensor, device and facade inherits
+    ("driver/observable.py", "Observable.watch"),
+    ("driver/observable.py", "Observable.unwatch"),
+    ("driver/observable.py", "Observable._on_change"),
     ("async_tasks.py", "AsyncTasks.add_task"),
     ("async_tasks.py", "AsyncTasks.cancel_key_tasks"),
     # the request bookkeeping every handler inherits: its clock and its retry budget
